@@ -142,4 +142,59 @@ def exactPolySolver (spin : Bool) (vars : List Label) (p : Poly) : List Row := e
 /-- `ExactSolver.sample(bqm)` -/
 def exactBqmSolver (vars : List Label) (m : Bqm) : List Row := exactRows m.spin vars m.energy
 
+/-! ## `PolyScaleComposite.sample_poly` with the refusal of `scalar = 0` (repository fix cca1a20) -/
+
+/-- the two exceptions of `PolyScaleComposite.sample_poly` -/
+inductive PolyScaleErr where
+  /-- `if not scalar: raise ValueError("scalar must be non-zero")` (reached only when `scalar is not None`) -/
+  | scalarZero
+  /-- `ZeroDivisionError` of `BinaryPolynomial.normalize` (a range end is 0; reached only when `scalar is None`) -/
+  | rangeZero
+  deriving DecidableEq, Repr
+
+/-- `PolyScaleComposite.sample_poly` as coded now, total over `scalar`: `scalar is not None` → `if not scalar: raise
+    ValueError` (before anything is scaled and before the child is called, whatever `ignored_terms` is), else
+    `poly.scale(scalar, …)`; `scalar is None` → the normalisation with its `ZeroDivisionError` -/
+def polyScaleCompositeFull (child : Poly → List Row) (p : Poly) (scalar : Option Rat) (biasRange : RangeArg)
+    (polyRange : Option RangeArg) (ignored : List (List Label)) : Except PolyScaleErr (List Row) :=
+  match scalar with
+  | some s => if s = 0 then .error .scalarZero else .ok (polyScaleSample child p s ignored)
+  | none =>
+    match polyNormalizeSample child p biasRange polyRange ignored with
+    | none => .error .rangeZero
+    | some rows => .ok rows
+
+/-- the exception of an outcome, if any -/
+def polyScaleErrOf : Except PolyScaleErr (List Row) → Option PolyScaleErr
+  | .error e => some e
+  | .ok _ => none
+
+/-! ## `TrackingComposite`: all three entry points and the log accessors (tracking.py) -/
+
+/-- the `inpt` dict of the `tracking` decorator: the positional arguments under the names of the wrapped method -/
+inductive TrackedInput where
+  | bqm (m : Bqm)
+  | ising (h : List (Label × Rat)) (J : List (Label × Label × Rat))
+  | qubo (lin : List (Label × Rat)) (quad : List (Label × Label × Rat))
+
+/-- the two lists `_inputs` / `_outputs` (always appended together, so one list of pairs) -/
+abbrev TrackLog := List (TrackedInput × List Row)
+
+/-- `TrackingComposite.sample / sample_ising / sample_qubo` as coded: `self.child.<same method>(…)` — for a child class that
+    implements only one of the three methods (`impl`, `child`) that is the mixin conversion — and the log extended by this
+    input and this output.  (`copy=True` stores deep copies: values here, so both settings are this function.) -/
+def trackingCall (impl : Impl) (child : Bqm → List Row) (log : TrackLog) (inp : TrackedInput) : List Row × TrackLog :=
+  let out := match inp with
+    | .bqm m => mixinSample impl child m
+    | .ising h J => mixinIsing impl child h J
+    | .qubo lin quad => mixinQubo impl child lin quad
+  (out, log ++ [(inp, out)])
+
+/-- `TrackingComposite.output` / `.input`: the most recent entry, `ValueError` (none) on an empty log -/
+def trackingOutput (log : TrackLog) : Option (List Row) := log.getLast?.map (·.2)
+def trackingInput (log : TrackLog) : Option TrackedInput := log.getLast?.map (·.1)
+
+/-- `TrackingComposite.clear` -/
+def trackingClear (_log : TrackLog) : TrackLog := []
+
 end Enum
